@@ -2,11 +2,14 @@
 
 use crate::{json::J, verdict::Tier};
 
+pub mod c01;
+pub mod c02;
 pub mod c03;
 pub mod c04;
 pub mod c04_create;
 pub mod c05;
 pub mod c07;
+pub mod c08;
 pub mod c15;
 pub mod c16;
 pub mod c18;
@@ -14,10 +17,13 @@ pub mod c19;
 
 pub fn run(id: &str, tier: Tier) -> i32 {
     match id {
+        "C01" => c01::run(tier),
+        "C02" => c02::run(tier),
         "C03" => c03::run(tier),
         "C04" => c04::run(tier),
         "C05" => c05::run(tier),
         "C07" => c07::run(tier),
+        "C08" => c08::run(tier),
         "C15" => c15::run(tier),
         "C16" => c16::run(tier),
         "C18" => c18::run(tier),
@@ -33,10 +39,13 @@ pub fn run(id: &str, tier: Tier) -> i32 {
 pub fn replay(id: &str, j: &J) -> i32 {
     let case = j.get("case").cloned().unwrap_or(J::Null);
     let res: Option<Vec<String>> = match id {
+        "C01" => c01::replay(&case),
+        "C02" => c02::replay(&case),
         "C03" => c03::replay(&case),
         "C04" => c04::replay(&case),
         "C05" => c05::replay(&case),
         "C07" => c07::replay(&case),
+        "C08" => c08::replay(&case),
         "C15" => c15::replay(&case),
         "C16" => c16::replay(&case),
         "C18" => c18::replay(&case),
